@@ -49,6 +49,9 @@ pub mod storage;
 pub mod types;
 /// Utilities.
 pub mod utils;
+/// Verification hooks.
+#[cfg(feature = "verif")]
+pub mod verif;
 
 #[cfg(feature = "jemalloc")]
 use tikv_jemallocator::Jemalloc;
